@@ -1264,3 +1264,38 @@ Qed.
 Lemma reader_chunking decode n t c1 c2 : fold_right append EmptyString c1 = fold_right append EmptyString c2 ->
   unmarshal_reader decode n t c1 = unmarshal_reader decode n t c2.
 Proof. unfold unmarshal_reader. intros ->. reflexivity. Qed.
+
+(* ------------------------------------------------------------------ options= are matched exactly *)
+Lemma in_options_exact o s : in_options o s = true <-> (o_options o = [] \/ In s (o_options o)).
+Proof.
+  unfold in_options. destruct (o_options o) as [|a l] eqn:E; [split; auto|]. rewrite existsb_exists. split.
+  - intros [x [Hin Hx]]. apply String.eqb_eq in Hx. subst. right. exact Hin.
+  - intros [H|H]; [discriminate|]. exists s. split; [exact H | apply String.eqb_refl].
+Qed.
+
+Lemma env_value_options t o ev v : env_value t o ev = Ok v -> in_options o ev = true.
+Proof. unfold env_value. destruct (in_options o ev); [reflexivity | discriminate]. Qed.
+
+(* ------------------------------------------------------------------ inherit *)
+Lemma olookup_app {V} k (a b : list (string * V)) :
+  olookup k (a ++ b) = match olookup k a with Some x => Some x | None => olookup k b end.
+Proof.
+  unfold olookup. induction a as [|[k' v'] r IH]; simpl; [reflexivity|]. destruct (String.eqb k k'); [reflexivity | exact IH].
+Qed.
+
+Lemma olookup_filter_absent k (vm pm : obj) : has_key k vm = false ->
+  olookup k (filter (fun kv => negb (has_key (fst kv) vm)) pm) = olookup k pm.
+Proof.
+  intro H. unfold olookup. induction pm as [|[k' v'] r IH]; simpl; [reflexivity|].
+  destruct (String.eqb k k') eqn:E.
+  - apply String.eqb_eq in E. subst k'. rewrite H. simpl. rewrite String.eqb_refl. reflexivity.
+  - destruct (has_key k' vm); simpl; [exact IH | rewrite E; exact IH].
+Qed.
+
+Lemma inh_merge_lookup k m anc vm pm : olookup k m = Some (JObj vm) -> inh_lookup k anc = Some (JObj pm) ->
+  exists merged, inh_lookup k (m :: anc) = Some (JObj merged) /\
+    forall key, olookup key merged = match olookup key vm with Some x => Some x | None => olookup key pm end.
+Proof.
+  intros Hm Ha. simpl. rewrite Hm, Ha. eexists. split; [reflexivity|]. intro key. rewrite olookup_app.
+  destruct (olookup key vm) eqn:E; [reflexivity|]. apply olookup_filter_absent. unfold has_key. rewrite E. reflexivity.
+Qed.
